@@ -10,6 +10,7 @@ import Driver.OpsColl
 import Driver.OpsRecip
 import Driver.Value
 import Driver.OpsClean
+import Driver.OpsFlatten
 open Lean Driver
 
 def dispatch (op : String) (j : Json) : R Json :=
@@ -23,6 +24,7 @@ def dispatch (op : String) (j : Json) : R Json :=
   | "recipients" => opRecipients j
   | "echo" => opEcho j
   | "clean" => opClean j
+  | "flatten" => opFlatten j
   | _ => .error s!"unknown op {op}"
 
 partial def loop (h : IO.FS.Stream) (out : IO.FS.Stream) : IO Unit := do
